@@ -1,6 +1,6 @@
 /- `chessdrv`: line protocol driver.  One request per line on stdin, one answer line on stdout:
 `<model answer> ## <specification answer>`. -/
-import ChessVerif.Drv.Iter
+import ChessVerif.Drv.Engine
 
 open Chess Chess.Drv
 
@@ -22,6 +22,10 @@ def dispatch (line : String) : Ans :=
   | "mgiter" :: r => handleIter2 r
   | "build" :: r => handleBuild r
   | "expect" :: r => handleExpect r
+  | "search" :: r => handleSearch r
+  | "searchchk" :: r => handleSearchChk r
+  | "bot" :: r => handleBot r
+  | "book" :: r => handleBook r
   | _ => bad
 
 partial def loop (hin hout : IO.FS.Stream) : IO Unit := do
